@@ -152,7 +152,7 @@ func main() {
 		}
 	}
 	// invalid IP lengths and unsupported networks -> nil, never a panic
-	for _, l := range []int{1, 2, 3, 5, 6, 8, 15, 17, 20, 32} {
+	for _, l := range []int{0, 1, 2, 3, 5, 6, 8, 15, 17, 20, 32} { // 0: a non-nil, zero-length IP (nil means "unspecified" and is valid)
 		ip := make(net.IP, l)
 		r.Fill(ip)
 		for _, zone := range []string{"", "lo", "5"} {
